@@ -13,7 +13,9 @@ CLAIMED = {
    text="Machine-checked theorems (round trip for every byte list and every previous dataset content, frame, refinement of any "
         "dump/load sequence to a finite map, invariant on all reachable files) about a Gallina model of dump_pickle_to_hdf/load_state; "
         "the model is re-validated against the real functions on every run by executing generated operation sequences on both.",
-   note=COMMON_NOTE + "h5py is absent: an in-memory stand-in implements the seven h5py calls used; pickle round-trips (premise).",
+   note=COMMON_NOTE + "h5py is absent: an in-memory stand-in implements the seven h5py calls used; pickle round-trips (premise). Source tie "
+        "(Props/C20_src.v): dump_pickle_to_hdf as written in /repo today is rendered as a plan of h5py actions (tools/py2coq_h5.py, regenerated on every "
+        "run) and executing that plan with the model's primitives is proved to be the model's dump for every file and byte string.",
    technique="Coq proof (induction over operation sequences, refinement to an abstract map) + vm_compute correspondence",
    ref="DESIGN.md section 3, C20"),
 }
